@@ -44,7 +44,7 @@ REQUIRED = ('decisions_checked', 'terminal_states_checked',
             'forks')
 
 CUSTOMS = ('kuhn', 'draw5', 'stud5', 'greek', 'courchevel', 'holdem8',
-           'plo8', 'badugi1', 'razzdraw', 'random')
+           'plo8', 'badugi1', 'razzdraw', 'random', 'openstud')
 
 # allowed successor phases (loose automaton; see DESIGN C07)
 NEXT = {
@@ -224,6 +224,13 @@ def cfg_filter(cfg, rng):
 
 
 def pol_tweak(pol, cfg, rng):
+    if rng.random() < 0.12:
+        # cash games with manual showing: partial and empty shows
+        pol['partial_show'] = True
+        pol['empty_show'] = True
+        cfg['mode'] = 'CASH_GAME'
+        cfg['autos'] = [a for a in cfg['autos']
+                        if a != 'HOLE_CARDS_SHOWING_OR_MUCKING']
     if rng.random() < 0.4:
         pol['fork_p'] = 0.03     # continue on a deepcopy mid-hand
     if rng.random() < 0.25:
